@@ -13,7 +13,7 @@ RULE = ("random spectra (integer counts, 40% zeros, fractional values with a tot
         "shape: (1) the combined `sfs view` call vs piping through single-option calls (-O npy between steps, text at the "
         "end): stdout must be byte-identical; (2) the combined call vs the model's view_run within 0.5e-6 + 1e-9*sum; (3) "
         "`--mask-monomorphic` alone zeroes exactly the first and last entry; `--normalize` alone sums to one within 1e-9 "
-        "and preserves ratios; no options reproduces the input text. non-trivial = at least two options set; the projection target spelled --project-shape, -p / --project-individuals, with '=' attached; spectra of 65539, 2^20+5 and 1025x1025 entries through view, directly and via npy")
+        "and preserves ratios; no options reproduces the input text. non-trivial = at least two options set; the projection target spelled --project-shape, -p / --project-individuals, with '=' attached; spectra of 65539, 2^20+5 and 1025x1025 entries through view, directly and via npy; exact decimal rounding of values next to ties and of normalised counts")
 
 
 def fmt(l):
@@ -197,6 +197,42 @@ def check(rep, tier, seed):
             rep.fail(kind="cli-vs-model", cls="view:error-expected", case=case[:300], argv=["sfs"] + job[0], stdin=job[1].decode(),
                      observed={"rc": rc, "stdout": so.decode(errors="replace")[:300], "stderr": se.decode(errors="replace")[-200:]}, expected=m[:100],
                      detail="inadmissible marginalization list / projection target: sfs view must fail with a diagnostic and without output")
+    # normalising divides by the TOTAL, whatever its sign: a spectrum with a negative total (differences of spectra) sums to
+    # one afterwards and every entry changes sign; also when only the part left by --mask-monomorphic sums below zero
+    njobs, nwant = [], []
+    for shp_n, vals_n, extra_n in (([4], [-1, -2, -3, -2], []), ([2, 3], [5, -1, -3, -2, -2, 4], ["--mask-monomorphic"]), ([3], [2, -8, 2], []), ([2, 2], [-4, 1, 1, -6], ["--mask-monomorphic"]),
+                                  ([5], [1, -3, -3, -3, 4], ["--project-shape", "3"])):
+        njobs.append((["view"] + extra_n + ["--normalize", "--precision", "9"], text_spectrum(shp_n, list(map(str, vals_n)))))
+        nwant.append("viewrun - %s %d 1 %s %s" % (extra_n[1] if "--project-shape" in extra_n else "-", 1 if "--mask-monomorphic" in extra_n else 0, ",".join(map(str, shp_n)), ",".join(map(str, vals_n))))
+    for job, m, (rc, so, se) in zip(njobs, run_model(nwant), run_cli_many(njobs)):
+        rep.count("view-negative-total", " ".join(job[0]), True)
+        p_ = parse_text_spectrum(so)
+        e_ = m.split()
+        good = rc == 0 and p_ is not None and e_[0] == "OK" and len(p_[1]) == len(e_[2].split(",")) and all(not isinstance(frac_to_dec(t_), str) and abs(frac_to_dec(t_) - Fraction(x_)) <= Fraction(1, 10**9) for t_, x_ in zip(p_[1], e_[2].split(",")))
+        if not good:
+            rep.fail(kind="cli-vs-model", cls="view:negative-total", case=" ".join(job[0]) + " <<< " + job[1].decode().replace("\n", " "), argv=["sfs"] + job[0], stdin=job[1].decode(),
+                     observed={"rc": rc, "stdout": so.decode(errors="replace")[:300]}, expected=m[:300], detail="normalising a spectrum whose total is negative: entries are x / total (they sum to one)")
+    # `view` without options reproduces its input to the printed precision: every entry is printed as the decimal with p
+    # decimals NEAREST to its exact binary value (ties to even) - also for values an ulp away from a tie, and after
+    # normalising counts to k/20 or k/200 (oracle: python's decimal arithmetic on the exact value of the double)
+    from decimal import Decimal, ROUND_HALF_EVEN
+    from common import run_cli_many as _rcm_dec
+    near = [0.15, 0.35, 0.45, 1.15, 0.05, 0.25, 0.55, 1.115, 2.675, 1.005, 0.125, 0.375, 8.345, 1.0005, 0.0015, 2.5, 0.5, 1.5, 1e-7, 123456.785]
+    djobs, dwant = [], []
+    for p_ in (0, 1, 2, 3, 6):
+        q_ = Decimal(1).scaleb(-p_)
+        fmt_d = lambda x: format(Decimal(x).quantize(q_, rounding=ROUND_HALF_EVEN), "f") if p_ else format(Decimal(x).quantize(Decimal(1), rounding=ROUND_HALF_EVEN), "f")
+        djobs.append((["view", "--precision", str(p_)], text_spectrum([len(near)], [repr(x) for x in near])))
+        dwant.append(text_spectrum([len(near)], [fmt_d(x) for x in near]))
+        for counts, tot in (([3, 7, 9, 1], 20), ([1, 13, 27, 59, 100], 200), ([1, 2, 3, 14], 20)):
+            djobs.append((["view", "--normalize", "--precision", str(p_)], text_spectrum([len(counts)], list(map(str, counts)))))
+            dwant.append(text_spectrum([len(counts)], [fmt_d(c_ / float(tot)) for c_ in counts]))
+    for job, want, (rc, so, se) in zip(djobs, dwant, _rcm_dec(djobs)):
+        rep.count("view-decimal-rounding", " ".join(job[0]), True)
+        if rc != 0 or so.replace(b"-0.", b"0.").replace(b" -0 ", b" 0 ") != want.replace(b"-0.", b"0."):
+            rep.fail(kind="property-oracle", cls="view:decimal-rounding", case=" ".join(job[0]) + " <<< " + job[1].decode().replace("\n", " ")[:200], argv=["sfs"] + job[0], stdin=job[1].decode(),
+                     observed={"rc": rc, "stdout": so.decode(errors="replace")[:300]}, expected=want.decode()[:300],
+                     detail="an entry is not printed as the nearest decimal (at the requested precision) of its exact value")
     # spectra larger than any block a writer or reader might work in (2^16 and 2^20 values and a little more): `view` without
     # options reproduces its input to the printed precision - every value, separated from its neighbours - and the chain
     # through npy gives the same bytes as the single invocation
